@@ -399,6 +399,9 @@ def run(ctx):
     # 0 is an ordinary id / value / address: nothing int-valued may be tested by truthiness (nqsa/truth.py)
     from .. import truth
     truth.check(ctx, "C09.Z", ['netqasm.sdk.qubit', 'netqasm.sdk.memmgr', 'netqasm.backend.executor'])
+    # a value remembered for later calls is keyed by every argument it depends on (nqsa/memo.py)
+    from .. import memo
+    memo.check(ctx, "C09.K", ['netqasm.sdk.qubit', 'netqasm.sdk.memmgr', 'netqasm.backend.executor'])
 
 
 QB = "netqasm/sdk/qubit.py"
